@@ -122,6 +122,60 @@ func Check(r *core.Run) error {
 	if len(cur) > 0 {
 		phases = append(phases, cur)
 	}
+	// cold starts: fresh processes whose first calls are the concurrent ones (state that is
+	// built on first use is built under contention); the calls made alone by the process
+	// above are the reference
+	nCold := 3
+	if r.Thorough() {
+		nCold = 10
+	}
+	var expect []string
+	for _, l := range seq {
+		var e event
+		json.Unmarshal(l, &e)
+		expect = append(expect, e.H)
+	}
+	for c := 0; c < nCold; c++ {
+		cout := filepath.Join(r.Scratch, fmt.Sprintf("cold%d.ndjson", c))
+		cjob, _ := json.Marshal(map[string]any{"calls": pp.Calls, "out": cout, "mode": "cold", "goroutines": 32, "seed": uint64(r.Seed) + uint64(c), "expect": expect})
+		cjf := filepath.Join(r.Scratch, fmt.Sprintf("cold%d.job", c))
+		os.WriteFile(cjf, cjob, 0o644)
+		clog := filepath.Join(r.Scratch, fmt.Sprintf("racecold%d", c))
+		o, err := gencode.Run(pp.Bin, []string{"GORACE=halt_on_error=0 exitcode=0 log_path=" + clog}, cjf)
+		if err != nil {
+			return fmt.Errorf("%w: driver (cold start): %v\n%s", tlc.ErrInfra, err, o)
+		}
+		if ms, _ := filepath.Glob(clog + "*"); len(ms) > 0 {
+			for _, m := range ms {
+				b, _ := os.ReadFile(m)
+				raceText += "(cold start) " + string(b)
+			}
+		}
+		if strings.Contains(o, "DATA RACE") {
+			raceText += "(cold start) " + o
+		}
+		cf, err := os.ReadFile(cout)
+		if err != nil {
+			return err
+		}
+		var ph [][]byte
+		for _, line := range bytes.Split(bytes.TrimSpace(cf), []byte("\n")) {
+			var e event
+			if err := json.Unmarshal(line, &e); err != nil {
+				return err
+			}
+			if e.E == "Seq" {
+				continue
+			}
+			if e.E == "Return" {
+				nRet++
+				r.Nontrivial("cold|" + e.H[:2])
+			}
+			ph = append(ph, append([]byte{}, line...))
+		}
+		phases = append(phases, ph)
+	}
+	r.Cov("cold_start_processes", nCold)
 	if raceText != "" {
 		keep := filepath.Join(core.VerifDir, "evidence", "replays", "C19-race-report.txt")
 		os.MkdirAll(filepath.Dir(keep), 0o755)
